@@ -129,7 +129,7 @@ struct PsHarness : Harness {
     std::vector<std::string> props() const override { return {"C10", "C11"}; }
     std::string level(const std::string &p) const override { return p == "C11" ? "fault_enumeration" : "exploration"; }
     std::vector<std::string> probes(const std::string &p) const override {
-        if (p == "C10") return {"aux_size_0", "aux_size_1", "aux_size_N_minus_1", "aux_size_N", "aux_size_N_plus_1", "partial_store_ends_at_last_octet", "overflow_pair_refused", "reconfigured_checksum_width", "placed_before_checksum_selection"};
+        if (p == "C10") return {"aux_size_0", "aux_size_1", "aux_size_N_minus_1", "aux_size_N", "aux_size_N_plus_1", "partial_store_ends_at_last_octet", "overflow_pair_refused", "reconfigured_checksum_width", "placed_before_checksum_selection", "operation_failed_then_session_continued"};
         return {"crash_between_data_and_checksum_write", "tear_inside_checksum", "short_read_in_last_call", "validated_new_image_after_cut", "validated_old_image_after_cut"};
     }
     uint64_t runs(const std::string &p, const Tier &t) const override {
@@ -208,7 +208,12 @@ struct PsHarness : Harness {
         int64_t N = cf.geti("size");
         Json ops = Json::arr();
         int n = (int)r.range(prop == "C11" ? 0 : 1, prop == "C11" ? 3 : (t.thorough() ? 16 : 8));
-        for (int i = 0; i < n; ++i) ops.push(gen_op(r, N, prop == "C10"));
+        for (int i = 0; i < n; ++i) {
+            Json o = gen_op(r, N, prop == "C10");
+            const std::string k = o.gets("op");
+            if (prop == "C10" && r.chance(1, 8) && k != "restart" && k != "bitrot") { Json f = Json::arr(); f.push((long long)r.below(6)); f.push((long long)(1 + r.below(2))); f.push((long long)r.range(1, 3)); o["fault"] = f; }
+            ops.push(o);
+        }
         p["ops"] = ops;
         if (prop == "C11") {
             Json f = gen_op(r, N, false);
@@ -320,6 +325,25 @@ struct PsHarness : Harness {
                 continue;
             }
             Bytes before = W.med.mem;
+            if (o.has("fault")) {
+                // history with a failed call in it: one medium call of this operation fails or transfers short. The outcome of
+                // the failed operation itself is C11's subject; here the session simply goes on (retry, other operations) and
+                // everything after it is judged as usual, starting from whatever the failed call left on the medium.
+                const Json &fj = o.get("fault");
+                W.med.fault.at = fj.ati(0, 0); W.med.fault.kind = fj.ati(1, 1) == 2 ? 2 : 1; W.med.fault.arg = fj.ati(2, 1);
+                OpResult RF = call_op(W, o);
+                bool fired = W.med.fault_fired;
+                W.med.fault = Fault();
+                if (!RF.returned) { F("noprogress", "no return within the step budget under a single I/O fault"); return; }
+                if (fired) {
+                    COUNT("probe.operation_failed_then_session_continued");
+                    if (W.med.oob) F("region", "medium access (addr %u, len %zu) outside the instance's region", W.med.oob_addr, W.med.oob_len);
+                    W.img.assign(W.mdata(), W.mdata() + cf.N); stored_valid = false;
+                    if (!c.viol.empty()) return;
+                    continue;
+                }
+                W.med.mem = before;   // the fault position does not exist in this operation: judge it as an ordinary one below
+            }
             OpResult R = call_op(W, o); c.ops_done++;
             if (!R.returned) { F("noprogress", "no return within %llu medium calls", (unsigned long long)W.budget()); return; }
             // region monitor
